@@ -106,7 +106,7 @@ def run_shard(spec, tier, scratch):
         if r is not None:
             cfg, picks = r
             # bind the fault model to the OS: run a few of the explored fault schedules on real processes
-            if fault[0]["k"] in (0, rc.worker_records(c, fault[0]["w"])):
+            if fault[0]["k"] in (0, rc.worker_records(c, fault[0]["w"])) and not c.get("pipe"):
                 c11.real_replays(res, c, cfg, picks, fault, tier, REAL_REPLAYS[tier])
     return res
 
@@ -144,7 +144,9 @@ def replay(case, scratch):
     if (x1.trace, x1.outcome, x1.output) != (x2.trace, x2.outcome, x2.output):
         raise fw.HarnessError("the same schedule gave two different executions")
     v = judge(x1, c["nrec"], case.get("fault") or [])
-    if v is not None:
+    if v is not None and c.get("pipe"):
+        res.fail(v[0], v[1] + f" [model of a pipe holding {c['pipe']} message(s)]", case)
+    elif v is not None:
         err = rc.conform_real(cfg, case["schedule"], case.get("fault"), x1)
         if err is not None:
             raise fw.HarnessError(f"counterexample does not reproduce on real processes: {err}")
